@@ -18,6 +18,8 @@ type Gen struct {
 	epochN       int
 	touched      map[string]Sort
 	havocAllSeen bool
+	dryHavocs    []*Epoch // havoc-all epochs of the dry run in progress
+	havocEpochs  []*Epoch // every havoc-all performed outside dry runs (their keep lists matter to `preserves` checks)
 	assertHit    map[*AssertSpec]bool // in-body assert clauses that matched a call site
 	obsLens      []Term // lengths taken with len() so far (see allocBound)
 	strLits      map[string]Term
@@ -63,6 +65,7 @@ type loopInfo struct {
 	headSt  *State // havocked state at header (for decreases)
 	decr0   Term
 	mod     map[string]bool
+	keep    []string // key prefixes every havoc-all in the body preserves
 }
 
 type deferRec struct {
@@ -376,6 +379,7 @@ func (tr *Trans) runBlocks(order []*ssa.BasicBlock, entrySt *State, entryRC Term
 					tr.loopFrame(li, mod, st, rc, "entry", false)
 				}
 				hs := tr.g.havocKeys(st, mod, all)
+				hs.ep.keep = li.keep
 				li.phiVals = map[*ssa.Phi]Val{}
 				for _, in := range b.Instrs {
 					if phi, ok := in.(*ssa.Phi); ok {
@@ -525,6 +529,8 @@ func (tr *Trans) loopModSet(li *loopInfo, st *State, rc Term) (map[string]bool, 
 	savedHav := g.havocAllSeen
 	g.touched = map[string]Sort{}
 	g.havocAllSeen = false
+	savedDryHavocs := g.dryHavocs
+	g.dryHavocs = nil
 	tr.e.sink = true
 	g.dry++
 	// save per-activation maps that the dry run overwrites
@@ -551,6 +557,23 @@ func (tr *Trans) loopModSet(li *loopInfo, st *State, rc Term) (map[string]bool, 
 		mod[k] = true
 	}
 	all := g.havocAllSeen
+	// what every havoc-all in the body keeps (callee `preserves` clauses), the loop head keeps too
+	var keep []string
+	for i, ep := range g.dryHavocs {
+		if i == 0 {
+			keep = append(keep, ep.keep...)
+			continue
+		}
+		var both []string
+		for _, k := range keep {
+			if hasAnyPrefix(k, ep.keep) {
+				both = append(both, k)
+			}
+		}
+		keep = both
+	}
+	li.keep = keep
+	g.dryHavocs = append(savedDryHavocs, g.dryHavocs...)
 	// restore
 	g.dry--
 	for k, s := range g.touched {
@@ -598,6 +621,24 @@ func (tr *Trans) loopEnv(li *loopInfo, st *State, phis map[*ssa.Phi]Val) *Env {
 				env.vars["old$"+n] = pv // old(n) of a reassigned parameter is its entry value
 			}
 			env.vars[n] = v
+		}
+	}
+	// the range indices of the enclosing loops, by loop ordinal: rangeindex<k>
+	for _, outer := range tr.loops {
+		if outer == li || !outer.body[li.header] {
+			continue
+		}
+		if outer.phiVals == nil {
+			if tr.g.dry > 0 {
+				// dry run of the enclosing loop (mod-set discovery): its header values do not exist yet
+				env.vars[fmt.Sprintf("rangeindex%d", outer.ordinal)] = Val{T: tInt, C: []Term{tr.e.fresh("dryidx", SInt)}}
+			}
+			continue
+		}
+		for phi, v := range outer.phiVals {
+			if phi.Comment == "rangeindex" {
+				env.vars[fmt.Sprintf("rangeindex%d", outer.ordinal)] = v
+			}
 		}
 	}
 	return env
@@ -797,7 +838,7 @@ func (g *Gen) globalKey(e *Emitter, pkg, name string) string {
 }
 
 func (g *Gen) noteIndex(idx Term) {
-	if strings.Contains(idx.S, "!q") {
+	if strings.Contains(idx.S, "!q") || g.dry > 0 {
 		return
 	}
 	for _, x := range g.recentIdx {
@@ -806,7 +847,7 @@ func (g *Gen) noteIndex(idx Term) {
 		}
 	}
 	g.recentIdx = append(g.recentIdx, idx)
-	if len(g.recentIdx) > 6 {
-		g.recentIdx = g.recentIdx[len(g.recentIdx)-6:]
+	if len(g.recentIdx) > 8 {
+		g.recentIdx = g.recentIdx[len(g.recentIdx)-8:]
 	}
 }
